@@ -1,7 +1,8 @@
 (* C20 — the role of each input file depends only on its extension and argument order.
    Statements only; model in Model/Files.v, proofs in Proofs/FilesOk.v.
-   walkdir and the real file system (symlinked roots, unreadable directories, non-UTF-8 names)
-   are outside the model and exercised by the runs of props/C20.py.
+   Symbolic links are part of the model (Model/Files.v: what walkdir's follow_links(true) does with a
+   link to a file / directory / device, a dangling link, a loop); other walkdir errors (missing
+   path, unreadable directory) and non-UTF-8 names are outside the model.
    The third sentence of the property (swapping the two programs and the direction) is C20_swap_roles
    (which file is left / right) + C20_swap (the two families of obligations are refuted by the same
    interpretations; proved for the end-to-end model Model/StrongFull.v).  Equality of the emitted FILES
@@ -48,19 +49,45 @@ Theorem C20_first : forall ps : list string,
 Proof. exact roles_first. Qed.
 Print Assumptions C20_first.
 
-(* the walk order: arguments in argument order ... *)
+(* the walk order: arguments in argument order; `entry?`: the first walkdir error in that order is
+   the result (wbind = Result's and_then) *)
 Theorem C20_args_in_order : forall a b : list node,
-  sort (a ++ b) = sort_paths (flat_map walk a ++ flat_map walk b).
+  sort (a ++ b) =
+  wbind (collect (flat_map walk a)) (fun pa =>
+  wbind (collect (flat_map walk b)) (fun pb => WOk (sort_paths (pa ++ pb)))).
 Proof. exact sort_args_app. Qed.
 Print Assumptions C20_args_in_order.
 
 (* ... and inside a directory of plain files, in byte-wise file-name order *)
 Theorem C20_dir_in_name_order : forall (d : string) (cs : list node),
   all_files cs ->
-  walk (Dir d cs) = map (fun c => (d ++ "/" ++ node_name c)%string) (sort_nodes cs)
+  walk (Dir d cs) = map (fun c => VFile (d ++ "/" ++ node_name c)%string) (sort_nodes cs)
   /\ Permutation (sort_nodes cs) cs /\ Sorted node_le (sort_nodes cs).
 Proof. exact walk_flat_dir. Qed.
 Print Assumptions C20_dir_in_name_order.
+
+(* ---------------- symbolic links (finding F23, audit 2 B2) ----------------
+   With `follow_links(true)` a link that resolves is visited as what it resolves to UNDER THE
+   LINK'S OWN NAME: a link to a regular file like a regular file (its role follows from the link's
+   extension and position), a link to a directory like a directory, a link to a fifo/socket/device
+   is skipped like one.  [resolve] replaces every such link in a tree. *)
+Theorem C20_links_transparent : forall args : list node, sort (map resolve args) = sort args.
+Proof. exact sort_resolve. Qed.
+Print Assumptions C20_links_transparent.
+
+Theorem C20_link_file : forall s : string, walk (Link s LFile) = walk (File s).
+Proof. exact walk_link_file. Qed.
+Print Assumptions C20_link_file.
+
+(* Files::sort fails iff a dangling link (or circular chain of links) or a link to a directory that
+   contains it is below the arguments - with the first such walkdir error in walk order -, and
+   otherwise returns the buckets of the visited paths: NO entry is dropped silently except
+   directories, fifos, sockets and devices. *)
+Theorem C20_sort_ok_iff_clean : forall args : list node,
+  (forallb clean args = true -> sort args = WOk (sort_paths (map visit_path (flat_map walk args)))) /\
+  (forallb clean args = false -> exists e, sort args = WErr e /\ In (VErr e) (flat_map walk args)).
+Proof. exact sort_ok_iff_clean. Qed.
+Print Assumptions C20_sort_ok_iff_clean.
 
 (* C20_move: the roles depend only on: the .lp files in order, the first .spec, .ug, .po *)
 Theorem C20_key : forall ps ps' : list string,
@@ -148,7 +175,21 @@ Proof. repeat split; vm_compute; reflexivity. Qed.
 Example C20_sort_example :
   let tree := [File "z.lp"; Dir "d" [File "b.lp"; File "a.spec"; Dir "B" [File "c.lp"]; Special "l.lp"; File "a.lp"];
                File "u.ug"; File "first.spec"] in
-  flat_map walk tree = ["z.lp"; "d/B/c.lp"; "d/a.lp"; "d/a.spec"; "d/b.lp"; "u.ug"; "first.spec"] /\
-  roles_of (sort tree) =
-  mkroles (Some "z.lp") (Some "d/B/c.lp") (Some (inr "d/a.spec")) (Some "z.lp") (Some "u.ug") None.
+  flat_map walk tree = map VFile ["z.lp"; "d/B/c.lp"; "d/a.lp"; "d/a.spec"; "d/b.lp"; "u.ug"; "first.spec"] /\
+  option_map roles_of (match sort tree with WOk f => Some f | WErr _ => None end) =
+  Some (mkroles (Some "z.lp") (Some "d/B/c.lp") (Some (inr "d/a.spec")) (Some "z.lp") (Some "u.ug") None).
 Proof. split; vm_compute; reflexivity. Qed.
+
+(* F23 (audit 2 B2): `verify a.lp b.lp c.lp` with a.lp a symbolic link to a regular file: a.lp is the
+   left program and b.lp the right one (before the repair a.lp was dropped: left b.lp, right c.lp);
+   links inside directories and links to directories; dangling links and loops are errors, the
+   first one in walk order wins *)
+Example C20_link_examples :
+  sort [Link "a.lp" LFile; File "b.lp"; File "c.lp"] = sort [File "a.lp"; File "b.lp"; File "c.lp"] /\
+  option_map roles_of (match sort [Link "a.lp" LFile; File "b.lp"; File "c.lp"] with WOk f => Some f | WErr _ => None end) =
+  Some (mkroles (Some "a.lp") (Some "b.lp") (Some (inl "a.lp")) (Some "b.lp") None None) /\
+  flat_map walk [Dir "d" [File "z.lp"; Link "a.lp" LFile; LinkDir "m" [File "y.lp"; Link "n.lp" LSpecial]]; Link "u.ug" LFile]
+    = map VFile ["d/a.lp"; "d/m/y.lp"; "d/z.lp"; "u.ug"] /\
+  sort [File "a.lp"; Dir "d" [File "b.lp"; Link "q.txt" LDangling]; Link "l" LLoop] = WErr (EIo "d/q.txt") /\
+  sort [File "a.lp"; LinkDir "me" [File "a.lp"; Link "me" LLoop]] = WErr (ELoop "me/me").
+Proof. repeat split; vm_compute; reflexivity. Qed.
